@@ -84,6 +84,8 @@ func (pi *PathIterator[_]) LeftPart() string {
 func (pi *PathIterator[_]) Next() bool {
 	pi.start = pi.end + 1
 	if pi.start >= len(pi.path) {
+		// a path made of a volume name only (\\host\share) does not end with a separator.
+		pi.start = len(pi.path)
 		pi.end = pi.start
 
 		return false
